@@ -1266,6 +1266,95 @@ fn build_fpool(ctx: &mut Ctx, run: &IoRun) -> Vec<FEntry> {
                         Err(p) => ctx.viol("C11", "panic", "field=Fq op=from_montgomery_limbs".into(), panic_msg(p)),
                     }
                 }
+                // Display under formatting flags (width, fill, alignment, precision, sign, alternate, zero padding):
+                // whatever the flags do to the layout, the digits must still denote the same integer
+                {
+                    let outs = catch_unwind(AssertUnwindSafe(|| -> Vec<(&'static str, String)> {
+                        macro_rules! all {
+                            ($x:expr) => {
+                                vec![
+                                    ("{:.0}", format!("{:.0}", $x)),
+                                    ("{:.5}", format!("{:.5}", $x)),
+                                    ("{:>12.3}", format!("{:>12.3}", $x)),
+                                    ("{:<90}", format!("{:<90}", $x)),
+                                    ("{:^7}", format!("{:^7}", $x)),
+                                    ("{:0120}", format!("{:0120}", $x)),
+                                    ("{:+}", format!("{:+}", $x)),
+                                    ("{:#}", format!("{:#}", $x)),
+                                    ("{:.*}", format!("{:.*}", 2, $x)),
+                                ]
+                            };
+                        }
+                        match &v {
+                            FVal::Fq(x) => all!(x),
+                            FVal::Fr(x) => all!(x),
+                            FVal::Fp(x) => all!(x),
+                        }
+                    }));
+                    match outs {
+                        Ok(list) => {
+                            for (spec, text) in list {
+                                let t = text.trim().trim_start_matches('+');
+                                let denotes = if t.is_empty() { Some(BigUint::from(0u32)) } else { BigUint::parse_bytes(t.as_bytes(), 10) };
+                                if denotes.as_ref() != Some(&got) {
+                                    ctx.viol(
+                                        "C11",
+                                        "decimal_text",
+                                        format!("field={:?} op=display spec={}", fop.which, spec),
+                                        format!("formatted with {} the element {} prints as {:?}", spec, got, text),
+                                    );
+                                    break;
+                                }
+                            }
+                        }
+                        Err(p) => ctx.viol("C11", "panic", format!("field={:?} op=display_with_flags", fop.which), panic_msg(p)),
+                    }
+                }
+                // FromStr refuses everything that is not a plain decimal numeral of ASCII digits
+                {
+                    let numeral = got.to_string();
+                    let mid = numeral.len() / 2;
+                    let bad: Vec<String> = vec![
+                        format!("{}{}", numeral, '\u{131}'),
+                        format!("{}{}", '\u{130}', numeral),
+                        format!("{}{}{}", &numeral[..mid], '\u{132}', &numeral[mid..]),
+                        format!("{}{}", numeral, '\u{1F939}'),
+                        format!("{} ", numeral),
+                        format!(" {}", numeral),
+                        format!("+{}", numeral),
+                        format!("-{}", numeral),
+                        format!("{}a", numeral),
+                        format!("{}{}", numeral, '\u{663}'),
+                        format!("{}{}", '\u{FF13}', numeral),
+                        format!("{}.0", numeral),
+                        format!("0x{}", numeral),
+                        format!("{}_{}", &numeral[..mid], &numeral[mid..]),
+                    ];
+                    let which = fop.which;
+                    let accepted = catch_unwind(AssertUnwindSafe(move || -> Option<String> {
+                        for b in bad {
+                            let ok = match which {
+                                Which::Fq => Fq::from_str(&b).is_ok(),
+                                Which::Fr => Fr::from_str(&b).is_ok(),
+                                Which::Fp => Fp::from_str(&b).is_ok(),
+                            };
+                            if ok {
+                                return Some(b);
+                            }
+                        }
+                        None
+                    }));
+                    match accepted {
+                        Ok(None) => ctx.probe("from_str_refused_non_numerals"),
+                        Ok(Some(b)) => ctx.viol(
+                            "C11",
+                            "decimal_text",
+                            format!("field={:?} op=from_str_accepts_non_numeral", fop.which),
+                            format!("FromStr accepted {:?}, which is not a decimal numeral", b),
+                        ),
+                        Err(p) => ctx.viol("C11", "panic", format!("field={:?} op=from_str", fop.which), panic_msg(p)),
+                    }
+                }
                 // decimal text: Display denotes the same integer (the pinned code prints zero as the empty
                 // string; both "" and "0" are taken for zero) and FromStr reads it back
                 let text = catch_unwind(AssertUnwindSafe(|| match &v {
@@ -2676,6 +2765,17 @@ fn receive_all(ctx: &mut Ctx, run: &IoRun, segs: &[Seg]) -> Vec<Received> {
                     }
                     Exp::Io => {
                         ctx.probe("io_fault_inside_record_reported_as_err");
+                        // the transport failed; that is not the same verdict as "the peer sent invalid data"
+                        // (every entry shape of the pinned tree keeps the two apart)
+                        if !matches!(e, SerializationError::IoError(_)) && matches!(seg.shape, Shape::Elem(_) | Shape::Field(..)) {
+                            let prop = if seg.shape.has_elem() { "C02" } else { "C11" };
+                            ctx.viol(
+                                prop,
+                                "error_kind",
+                                format!("op=deserialize shape={} class=io_fault", shape_name),
+                                format!("an end-of-file or I/O error inside the record was reported as {:?}", e),
+                            );
+                        }
                         if rec.rplan.events.iter().any(|ev| ev.fatal() && ev.off == 31) {
                             ctx.probe("eof_or_error_at_offset_31");
                         }
@@ -2966,7 +3066,7 @@ fn history_checks(ctx: &mut Ctx, received: &[Received]) {
                         "C11",
                         "ordering",
                         format!("field={:?}", w),
-                        "sorting received elements with Ord does not give integer order".into(),
+                        "sorting received elements with Ord, or one of the comparison operators (<, <=, >, >=, ==, max, min, partial_cmp), does not give integer order".into(),
                     );
                 }
                 if bt != distinct || hs != distinct {
@@ -2992,11 +3092,30 @@ fn ord_hash<F: SimField>(xs: &[BigUint]) -> (bool, usize, usize, usize) {
             F::le_mod(&b)
         })
         .collect();
+    // every comparison operator, provided or overridden, on neighbouring pairs and on each value with itself
+    let mut ops_ok = true;
+    for i in 0..vals.len().min(40) {
+        for j in [i, (i + 1) % vals.len()] {
+            let (a, b) = (&vals[i], &vals[j]);
+            let o = xs[i].cmp(&xs[j]);
+            use std::cmp::Ordering::*;
+            ops_ok &= a.cmp(b) == o
+                && a.partial_cmp(b) == Some(o)
+                && (a < b) == (o == Less)
+                && (a <= b) == (o != Greater)
+                && (a > b) == (o == Greater)
+                && (a >= b) == (o != Less)
+                && (a == b) == (o == Equal)
+                && (a != b) == (o != Equal)
+                && Fld::int_le(&(*a).max(*b).le_bytes()) == xs[i].clone().max(xs[j].clone())
+                && Fld::int_le(&(*a).min(*b).le_bytes()) == xs[i].clone().min(xs[j].clone());
+        }
+    }
     vals.sort();
     let sorted_ints: Vec<BigUint> = vals.iter().map(|v| Fld::int_le(&v.le_bytes())).collect();
     let mut want = xs.to_vec();
     want.sort();
-    let ord_ok = sorted_ints == want;
+    let ord_ok = sorted_ints == want && ops_ok;
     want.dedup();
     let bt: std::collections::BTreeSet<F> = vals.iter().cloned().collect();
     let hs: std::collections::HashSet<F> = vals.iter().cloned().collect();
